@@ -232,13 +232,18 @@ CHECKS["C11"] = dict(
     "element, attribute and the structure (only character data changes); under the decidable nesting hypothesis WF (no paragraph directly inside textual "
     "content; evaluated on every tree met) what an ODF 1.2 consumer reads in EVERY paragraph and heading at any depth is unchanged (through the C05 consumer); "
     "the regenerated set still holds the mixed-content elements and none of the element-only ones. Save protocol (abstract parts): save never changes a "
-    "parsed part, saving twice and pretty-then-plain write the same content. Correspondence: pretty_indent of the implementation vs the model on every part "
+    "parsed part, saving twice and pretty-then-plain write the same content. The pretty branch of Document.save on the package model (Package.savePretty, the "
+    "pretty serialiser a parameter): name for name it writes what the plain save writes, through the serialiser when the part is parsed or one of the four "
+    "standard parts and byte for byte otherwise - no part lost or invented, an optional part the package lacks stays absent (pretty_save_writes, "
+    "pretty_save_same_parts, pretty_save_layout_only, pretty_save_other_parts_untouched, pretty_save_with_identity); tied to the code by the final pretty saves "
+    "of the C04 histories (driver op savep: each entry must be the named part exactly, or the named part up to layout). Correspondence: pretty_indent of the implementation vs the model on every part "
     "of every sample / template / generated document. Oracle (lxml): per paragraph reading, start tags + attributes, in-memory serialisation before / after, "
     "for pretty x {zip, folder, xml} and save sequences (canonical XML compared).",
     note="The Lean reading treats an element as transparent iff it is in TEXT_CONTENT (so the theorem is relative to that set: text_content_core pins its "
     "core; the oracle's reading is independent of it). office:binary-data (textwrap of base64) is outside the model and trees holding it or comments are "
-    "skipped by the correspondence. The save protocol theorems are about an abstract model (bytes = the tree they parse to) tied to the code by the "
-    "save-sequence oracle only; flat XML export is covered by the oracle only (content paragraphs).",
+    "skipped by the correspondence. The first save-protocol theorems are about an abstract model (bytes = the tree they parse to) tied to the code by the "
+    "save-sequence oracle only; the savePretty theorems are about the package model, whose pretty serialiser is a parameter (that XmlPart.pretty_serialize is "
+    "pretty_indent + serialisation is read from the source, not proved); flat XML export is covered by the oracle only (content paragraphs).",
     technique="Lean 4 theorems (structural induction over a first-child/next-sibling forest, consumer state lemma) over a model partly regenerated from the source + differential correspondence + lxml oracle",
     design="5/C11",
 )
